@@ -437,17 +437,122 @@ pub fn known(kind: &str, clause: &str, label: &str, k: u64, _t: u64) -> Option<S
     None
 }
 
+/// Process death inside the constructors: first creation of a database (caller-key and
+/// unencrypted constructors) and re-opening of an existing one, at every tick of the open.
+/// After the death the directory image is opened again with the same constructor: it must open,
+/// be usable, and - for an existing database - still hold its data.
+pub fn run_first_open(cfg: &RunCfg, _replay: Option<&[Step]>) -> crate::run::RunOutput {
+    use mdk_sqlite_storage::{EncryptionConfig, MdkSqliteStorage};
+    use mdk_storage_traits::groups::GroupStorage;
+    use mdk_storage_traits::messages::MessageStorage;
+    let mut out = crate::checks::c10::empty_output(cfg);
+    let mut r = Rng::new(cfg.seed).fork(0x0C12);
+    let base = crate::run::fresh_dir();
+    let key: [u8; 32] = r.bytes(32).try_into().unwrap();
+    let with_key = r.chance(1, 2);
+    let existing = r.chance(1, 2);
+    let open = |p: &std::path::Path| -> Result<MdkSqliteStorage, String> {
+        if with_key { MdkSqliteStorage::new_with_key(p, EncryptionConfig::new(key)).map_err(|e| e.to_string()) } else { MdkSqliteStorage::new_unencrypted(p).map_err(|e| e.to_string()) }
+    };
+    let write = |s: &MdkSqliteStorage, n: u8| -> bool {
+        s.save_group(crate::store::mk_group(n, n, 2, 1, 0, 1, None, 0, T0)).is_ok() && s.save_message(crate::store::mk_message(n, 1, 0, 0, 1, Some(1), 3, 1, 1)).is_ok()
+    };
+    let read = |s: &MdkSqliteStorage, n: u8| -> bool {
+        s.find_group_by_mls_group_id(&crate::store::gid(n)).ok().flatten().is_some() && s.find_message_by_event_id(&crate::store::gid(n), &crate::store::event_id(1)).ok().flatten().is_some()
+    };
+    seam::set_time(T0);
+    // prepare: how many ticks does the open take, and (existing) a database with data in it
+    let proto = base.join("proto");
+    let _ = std::fs::create_dir_all(&proto);
+    if existing {
+        match open(&proto.join("db.sqlite")) {
+            Ok(s) => {
+                let _ = write(&s, 0);
+            }
+            Err(e) => {
+                out.harness_error = Some(format!("prepare: {e}"));
+                return out;
+            }
+        }
+    }
+    let count = std::rc::Rc::new(std::cell::Cell::new(0u64));
+    {
+        let probe = base.join("probe");
+        crate::world::copy_dir(&proto, &probe);
+        let c = count.clone();
+        mdk_sqlite_storage::verif::set_thread_hook(Some(Box::new(move |p| {
+            if !matches!(p, mdk_sqlite_storage::verif::Point::Lock) {
+                c.set(c.get() + 1);
+            }
+        })));
+        let _ = open(&probe.join("db.sqlite"));
+        mdk_sqlite_storage::verif::set_thread_hook(None);
+    }
+    let ticks = count.get();
+    let mut sig = vec![format!("key={with_key} existing={existing} ticks={ticks}")];
+    for k in 1..=ticks {
+        let dir = base.join(format!("k{k}"));
+        crate::world::copy_dir(&proto, &dir);
+        let image = base.join(format!("k{k}.image"));
+        let n = std::rc::Rc::new(std::cell::Cell::new(0u64));
+        let label = std::rc::Rc::new(std::cell::RefCell::new(String::new()));
+        let (n2, l2, d2, i2) = (n.clone(), label.clone(), dir.clone(), image.clone());
+        mdk_sqlite_storage::verif::set_thread_hook(Some(Box::new(move |p| {
+            if matches!(p, mdk_sqlite_storage::verif::Point::Lock) {
+                return;
+            }
+            n2.set(n2.get() + 1);
+            if n2.get() == k {
+                *l2.borrow_mut() = format!("{p:?}");
+                crate::world::copy_dir(&d2, &i2);
+                std::panic::panic_any(SimulatedCrash);
+            }
+        })));
+        let res = std::panic::catch_unwind(std::panic::AssertUnwindSafe(|| open(&dir.join("db.sqlite")).map(|_| ())));
+        mdk_sqlite_storage::verif::set_thread_hook(None);
+        let label = label.borrow().clone();
+        if res.is_ok() {
+            continue; // the open finished before tick k
+        }
+        *out.faults.entry("crash".into()).or_insert(0) += 1;
+        *out.probes.entry("crash_inside_constructor".into()).or_insert(0) += 1;
+        sig.push(format!("{k}:{label}"));
+        // the process is gone; a new one opens what is on disk
+        match open(&image.join("db.sqlite")) {
+            Err(e) => out.violations.push(Violation { property: "C12".into(), clause: "database-does-not-open".into(), step: None, node: None, detail: format!("{} constructor, {} database, death at tick {k}/{ticks} ({label}): reopen failed: {e}", if with_key { "caller-key" } else { "unencrypted" }, if existing { "existing" } else { "new" }), known: None }),
+            Ok(s) => {
+                if existing && !read(&s, 0) {
+                    out.violations.push(Violation { property: "C12".into(), clause: "data-lost-by-death-inside-open".into(), step: None, node: None, detail: format!("death at tick {k}/{ticks} ({label}) of re-opening an existing database: its group / message are gone"), known: None });
+                }
+                if !(write(&s, 1) && read(&s, 1)) {
+                    out.violations.push(Violation { property: "C12".into(), clause: "database-unusable-after-death-inside-open".into(), step: None, node: None, detail: format!("death at tick {k}/{ticks} ({label}): the reopened database cannot store and return a group and a message"), known: None });
+                }
+            }
+        }
+        out.log.push(format!("death at tick {k}/{ticks} ({label}) -> reopened"));
+    }
+    out.n_steps = ticks as usize;
+    out.nontrivial = ticks > 0;
+    out.signature = crate::node::h8(sig.join(",").as_bytes());
+    out.transitions = sig;
+    let mut seen = BTreeSet::new();
+    out.violations.retain(|v| seen.insert(v.clause.clone()));
+    let _ = std::fs::remove_dir_all(&base);
+    out
+}
+
 pub fn spec() -> CheckSpec {
     let base = Profile { backend: BackendMix::Sqlite, steps_lo: 14, steps_hi: 30, max_nodes: 3, allow_immediate: true, ..Default::default() };
     CheckSpec {
         id: "C12",
         level: "fault_enumeration",
-        rule: "seeded short histories on SQLite nodes; for one (thorough: up to three) sampled call of every operation kind occurring in the history (create_group, create_message, process_message on application / proposal / commit / commit-with-rollback / refused, merge_pending_commit, process_welcome, accept_welcome, self_update, add/remove/update, constructor) the storage tick indices k of that call are enumerated (quick: first, last and a seeded sample of 8; thorough: every k): the history is re-executed to the call, the process dies at tick k (directory image incl. hot journal), the node reopens from the image, the call is issued again where the application would do so, the rest of the history and the quiescence phase run; oracles: the database opens, every group loads, end state equals the uninterrupted run; a case = (history, call, k); non-trivial = crash landed after the first write of a multi-statement call (k >= 2); distinct = (operation kind, tick label, k) tuples",
+        rule: "seeded short histories on SQLite nodes; for one (thorough: up to three) sampled call of every operation kind occurring in the history (create_group, create_message, process_message on application / proposal / commit / commit-with-rollback / refused, merge_pending_commit, process_welcome, accept_welcome, self_update, add/remove/update, constructor) the storage tick indices k of that call are enumerated (quick: first, last and a seeded sample of 8; thorough: every k): the history is re-executed to the call, the process dies at tick k (directory image incl. hot journal), the node reopens from the image, the call is issued again where the application would do so, the rest of the history and the quiescence phase run; oracles: the database opens, every group loads, end state equals the uninterrupted run; a case = (history, call, k); non-trivial = crash landed after the first write of a multi-statement call (k >= 2); distinct = (operation kind, tick label, k) tuples; variant first-open: death at every tick of the caller-key / unencrypted constructors, creating a new database or re-opening one that holds data: the image reopens with the same constructor, is usable and keeps its data",
         variants: vec![
             Variant { name: "sqlite", profile: base.clone(), runs_quick: 32, runs_thorough: 60, oracle: mk, guarded: false, configure_gen: None, post: Some(post), custom: None },
             Variant { name: "sqlcipher", profile: Profile { backend: BackendMix::SqliteCipher, ..base.clone() }, runs_quick: 16, runs_thorough: 30, oracle: mk, guarded: false, configure_gen: None, post: Some(post), custom: None },
+            Variant { name: "first-open", profile: base.clone(), runs_quick: 8, runs_thorough: 64, oracle: mk, guarded: false, configure_gen: None, post: None, custom: Some(run_first_open) },
         ],
-        assumptions: vec!["process death, not power loss: everything SQLite had handed to the OS survives (torn/lost pages are SQLite's durability contract)", "one crash per execution", "the application repeats the interrupted call after the restart"],
+        assumptions: vec!["the keyring constructor is not crash-enumerated: a death between pre-creating the file and storing the key leaves an empty file that new() refuses by design (C13)", "process death, not power loss: everything SQLite had handed to the OS survives (torn/lost pages are SQLite's durability contract)", "one crash per execution", "the application repeats the interrupted call after the restart"],
         real: super::REAL.to_vec(),
         stubs: super::STUBS.to_vec(),
     }
